@@ -27,7 +27,8 @@ THEOREMS = ["Mesa.Copy." + t for t in (
     "C19_spaces_never_share", "C19_original_untouched_by_copy", "C19_reject_unchanged")] + [
     "Mesa.CopySet." + t for t in (
         "C19_agentset_reachable_wf", "C19_agentset_copy_faithful", "C19_agentset_copy_without_owners_loses_members",
-        "C19_agentset_frame", "C19_agentset_original_untouched_by_copy", "C19_agentset_copy_detached")] + [
+        "C19_agentset_frame", "C19_agentset_original_untouched_by_copy", "C19_agentset_copy_detached",
+        "C19_agentset_copy_registry")] + [
     "Mesa.CopyOcc." + t for t in (
         "C19_space_reachable", "C19_space_mirror", "C19_space_capacity", "C19_space_closure", "C19_space_never_share",
         "C19_space_copy_faithful", "C19_space_copy_same_occupancy", "C19_space_copy_mentions_only_new_objects", "C19_space_copied_agents_point_into_copy", "C19_space_ghost_copy_points_outside",
